@@ -338,11 +338,13 @@ class RefDecoder:
                 self.rx_seq = (self.rx_seq + 1) % 8
                 self._st("data_accepted")
                 return [("tx", "ACK", self.rx_seq, False), ("up_data", fr.payload)]
+            # a well-formed frame that is not the next expected one: one answer carrying the next expected number;
+            # UG101 re-ACKs retransmissions and NAKs the rest, the properties leave the kind open ("open" mark)
             if fr.retx:
                 self._st("data_dup_retx")
-                return [("tx", "ACK", self.rx_seq, False)]
+                return [("tx", "ACK", self.rx_seq, False, "open")]
             self._st("data_out_of_seq")
-            return [("tx", "NAK", self.rx_seq, False)]
+            return [("tx", "NAK", self.rx_seq, False, "open")]
         if fr.kind == "RSTACK":
             self.rx_seq = 0
             self._st("rstack")
